@@ -92,6 +92,18 @@ pub struct Sent {
 pub struct WireLog {
     pub clock: Clock,
     pub sent: Arc<Mutex<Vec<Sent>>>,
+    /// send-fault plan shared by every mock datagram transport writing to this log
+    pub faults: Arc<Mutex<Faults>>,
+}
+
+/// Transient transport faults: the `n`-th call of `Transport::send` (counted over all mock datagram transports
+/// of the world, starting at 0) fails with an io::Error and puts nothing on the wire.
+#[derive(Default, Debug)]
+pub struct Faults {
+    pub calls: usize,
+    pub fail_calls: std::collections::BTreeSet<usize>,
+    /// (virtual time, call ordinal, destination) of every failed send
+    pub failed: Vec<(u64, usize, SocketAddr)>,
 }
 
 impl WireLog {
@@ -99,7 +111,15 @@ impl WireLog {
         Self {
             clock,
             sent: Default::default(),
+            faults: Default::default(),
         }
+    }
+    /// make the given `send` calls (ordinals over the whole world, 0-based) fail
+    pub fn fail_calls(&self, calls: impl IntoIterator<Item = usize>) {
+        self.faults.lock().fail_calls.extend(calls);
+    }
+    pub fn failed_sends(&self) -> Vec<(u64, usize, SocketAddr)> {
+        self.faults.lock().failed.clone()
     }
     pub fn snapshot(&self) -> Vec<Sent> {
         self.sent.lock().clone()
@@ -176,6 +196,16 @@ impl Transport for MockDatagram {
     async fn send(&self, message: &[u8], target: SocketAddr) -> io::Result<()> {
         if *self.fail_send.lock() {
             return Err(io::Error::new(io::ErrorKind::Other, "mock send failure"));
+        }
+        {
+            let mut f = self.log.faults.lock();
+            let n = f.calls;
+            f.calls += 1;
+            if f.fail_calls.contains(&n) {
+                let t = self.log.clock.now_ms();
+                f.failed.push((t, n, target));
+                return Err(io::Error::new(io::ErrorKind::ConnectionRefused, "mock transient send failure"));
+            }
         }
         self.log.sent.lock().push(Sent {
             t_ms: self.log.clock.now_ms(),
